@@ -242,6 +242,8 @@ impl ErrK {
 pub enum ReadEv {
     /// deliver at most n bytes
     Chunk(usize),
+    /// deliver bytes up to (not beyond) this absolute offset; skipped if already past it
+    Until(usize),
     /// `ErrorKind::Interrupted` (EINTR): std retries
     Interrupted,
     /// fail the read
@@ -278,6 +280,7 @@ impl FaultPlan {
                         .iter()
                         .map(|e| match e {
                             ReadEv::Chunk(n) => J::obj().set("chunk", J::u(*n as u64)),
+                            ReadEv::Until(n) => J::obj().set("until", J::u(*n as u64)),
                             ReadEv::Interrupted => J::s("interrupted"),
                             ReadEv::Err(k) => J::obj().set("err", J::s(k.name())),
                         })
@@ -308,6 +311,8 @@ impl FaultPlan {
                     p.script.push(ReadEv::Interrupted);
                 } else if let Some(n) = e.get("chunk").and_then(|n| n.as_u64()) {
                     p.script.push(ReadEv::Chunk(n as usize));
+                } else if let Some(n) = e.get("until").and_then(|n| n.as_u64()) {
+                    p.script.push(ReadEv::Until(n as usize));
                 } else if let Some(k) = e.get("err").and_then(|k| k.as_str()) {
                     p.script
                         .push(ReadEv::Err(ErrK::from_name(k).ok_or("bad script err")?));
@@ -366,7 +371,23 @@ impl Read for FaultyReader {
             return Ok(0);
         }
         let remaining = self.data.len() - self.pos;
+        // events that are already behind the read position are dropped
+        while let Some(ReadEv::Until(abs)) = self.script.front() {
+            if *abs <= self.pos {
+                self.script.pop_front();
+            } else {
+                break;
+            }
+        }
         let want = match self.script.pop_front() {
+            Some(ReadEv::Until(abs)) => {
+                let n = abs - self.pos;
+                if n > buf.len() {
+                    // the buffer is smaller than the distance: keep the split point for the next read
+                    self.script.push_front(ReadEv::Until(abs));
+                }
+                n
+            }
             Some(ReadEv::Interrupted) => {
                 log.interrupts += 1;
                 return Err(io::Error::new(ErrorKind::Interrupted, "simulated EINTR"));
